@@ -40,6 +40,7 @@ impl<T: Show> Show for [T] { fn show(&self) -> String { format!("[{}]", self.ite
 impl<T: Show + ?Sized> Show for &mut T { fn show(&self) -> String { format!("&mut {}", (**self).show()) } }
 impl Show for i32 { fn show(&self) -> String { format!("{self}") } }
 impl Show for () { fn show(&self) -> String { "()".into() } }
+impl Show for unimock::Impossible { fn show(&self) -> String { "Impossible".into() } }
 impl<T: Show + ?Sized> Show for &T {
     fn show(&self) -> String { format!("&{}", (**self).show()) }
     fn addrs(&self, out: &mut Vec<usize>) { out.push(*self as *const T as *const u8 as usize); }
